@@ -609,7 +609,18 @@ class Ovld:
     def unregister(self, fn):
         """Unregister a function."""
         self._attempt_modify()
-        self._defns = {sig: f for sig, f in self._defns.items() if f is not fn}
+        kept = [(sig, f) for sig, f in self._defns.items() if f is not fn]
+        # Close the gaps left in the tiebreak chain of a signature, so that a
+        # handler that was pushed down by one that is now gone ranks as it
+        # would if the latter had never been registered
+        self._defns = {}
+        for sig, f in kept:
+            rank = sum(
+                replace(sig2, tiebreak=sig.tiebreak) == sig
+                and sig2.tiebreak > sig.tiebreak
+                for sig2, _ in kept
+            )
+            self._defns[replace(sig, tiebreak=-rank)] = f
         self._update()
 
     def _update(self):
